@@ -120,6 +120,10 @@ def vectors(ctx):
                 v["tot"] = 1
                 v["case"] = ["borrowed", mod.__name__[-3:], k]
                 V.append(v)
+                # the pretty-printer dispatches on DF / TC / inferred register and then calls the field decoders: it sees the
+                # same structured frames (registers with every status pattern, every reserved code), totality only
+                if len(v["frame"]) == 14 and k % (2 * keep) == ctx.seed % keep:
+                    V.append({"fn": "tell", "frame": v["frame"], "case": ["borrowed_tell", mod.__name__[-3:], k], "cs": 0, "tot": 1})
     # dispatcher routing of the pairwise decoder: every TC x TC pair (both parities orders), with and without a receiver
     # location - judged with the full verdict (value inside the routed domain, RuntimeError for inconsistent pairs)
     for tc0 in range(32):
